@@ -89,4 +89,11 @@ def run(repo, tier) -> Result:
     from ..contracts import check_all
 
     check_all("C02", res, repo)
+    # a closed candle is final only if every merge into the open bucket ends in the wiped, re-convertible state, and nothing derived
+    # from its prices is cached across merges
+    from ..driver import check_merge
+    from ..framework_rules import check_candle_geometry_pure
+
+    check_merge("C02", res, repo)
+    check_candle_geometry_pure("C02", res, repo)
     return res
